@@ -89,7 +89,48 @@ def ev_call(ex, st, e, cx, k):
                               lambda s, vs: method_call(ex, s, obj, f.attr, vs[:len(e.args)],
                                                         dict(zip(kws.keys(), vs[len(e.args):])), cx, e, k))
         return ex.ev(st, f.value, cx, with_obj)
+    # a call through a value: a local bound to / a table entry holding a function of the operator module
+    if isinstance(f, (ast.Subscript, ast.Name)):
+        def with_fn(st, fv):
+            return ex.ev_list(st, list(e.args), cx, lambda s, vs: apply_operator(ex, s, fv, vs, cx, e, k))
+        return ex.ev(st, f, cx, with_fn)
     raise VCError(f'call form outside subset: {ast.unparse(e)}')
+
+
+def apply_operator(ex, st, fv, args, cx, node, k):
+    """Apply a function value of the operator module (given by its code) to the arguments."""
+    from .engine import OPERATOR_CODES as OC
+    if fv.ty.kind == 'union':
+        code = T.union_datatype().ui(fv.z)
+    elif fv.ty.kind == 'fn':
+        code = fv.z
+    else:
+        raise VCError(f'call of a value of type {fv.ty!r} outside subset: {ast.unparse(node)}')
+    if len(args) == 2 and args[0].ty.kind == 'version' and args[1].ty.kind == 'version':
+        a, b = args[0].z, args[1].z
+        res = z3.BoolVal(False)
+        for nm_, r_ in (('ge', a >= b), ('le', a <= b), ('gt', a > b), ('lt', a < b), ('eq', a == b), ('ne', a != b)):
+            res = z3.If(code == OC[nm_], r_, res)
+        return k(st, SV(BOOL, res))
+    # numeric operands: everything is computed over exact reals (ints embedded); bit operators act on the integer parts
+    xs = [ex.coerce(a_, FLOAT).z for a_ in args]
+    def trunc(r_):
+        return z3.If(r_ >= 0, z3.ToInt(r_), -z3.ToInt(-r_))
+    if len(xs) == 1:
+        return k(st, SV(FLOAT, -xs[0]))
+    a, b = xs
+    ia, ib = trunc(a), trunc(b)
+    fl = z3.ToReal(z3.ToInt(a / b))           # floor of the exact quotient
+    table = [('add', a + b), ('sub', a - b), ('mul', a * b), ('truediv', a / b), ('mod', a - b * fl),
+             ('and_', z3.ToReal(ex.bi.band(ia, ib))), ('or_', z3.ToReal(ex.bi.bor(ia, ib))),
+             ('xor', z3.ToReal(ex.bi.bxor(ia, ib))), ('rshift', z3.ToReal(ex.bi.shr(ia, ib))),
+             ('lshift', z3.ToReal(ex.bi.shl(ia, ib)))]
+    res = z3.RealVal(0)
+    for nm_, r_ in table:
+        res = z3.If(code == OC[nm_], r_, res)
+    divides = z3.Or(code == OC['truediv'], code == OC['mod'])
+    return ex.guard_raise(st, cx, z3.And(divides, b == 0), 'ZeroDivisionError', node,
+                          lambda s: k(s, SV(FLOAT, res)), why='division by zero')
 
 
 # ---------------------------------------------------------------------------- spec vocabulary
@@ -153,6 +194,28 @@ def spec_call(ex, st, e, cx, k):
         cn = e.args[1].value if isinstance(e.args[1], ast.Constant) else e.args[1].id
         ids = [ex.repo.class_ids[cn]]
         return k(st, SV(BOOL, z3.And(v.z != 0, ex.clsof(v.z) == ids[0])))
+    if nm in ('trunc', 'floor'):
+        v = ex.pure(st, e.args[0], cx)
+        r_ = ex.coerce(v, FLOAT).z
+        if nm == 'floor':
+            return k(st, SV(INT, z3.ToInt(r_)))
+        return k(st, SV(INT, z3.If(r_ >= 0, z3.ToInt(r_), -z3.ToInt(-r_))))
+    if nm == 'real':
+        v = ex.pure(st, e.args[0], cx)
+        return k(st, ex.coerce(v, FLOAT))
+    if nm == 'union_str':
+        v = ex.pure(st, e.args[0], cx)
+        return k(st, SV(STR, T.union_datatype().us(v.z)))
+    if nm == 'union_is_str':
+        v = ex.pure(st, e.args[0], cx)
+        return k(st, SV(BOOL, T.union_datatype().is_US(v.z)))
+    if nm == 'digit_at':
+        v, i_ = ex.pure(st, e.args[0], cx), ex.pure(st, e.args[1], cx)
+        f_ = ex.uf('int_of_str', z3.StringSort(), z3.IntSort())
+        return k(st, SV(INT, f_(z3.SubString(v.z, i_.z, 1))))
+    if nm == 'pmod':
+        a_, b_ = ex.pure(st, e.args[0], cx), ex.pure(st, e.args[1], cx)
+        return k(st, SV(INT, ex.bi.pmod(a_.z, b_.z)))
     if nm == 'domain_empty':
         v = ex.pure(st, e.args[0], cx)
         kq = z3.Const('k!de', T.sort_of(v.ty.args[0]))
